@@ -114,6 +114,7 @@ type c15Case struct {
 	Conn  string // unix tcp mesh
 	Type  string // signed plain remote-signed remote-plain unknown
 	Token string
+	Sign  string // submit only: the signwork field: "" absent, "true", "false"
 }
 
 func runC15Case(t *testing.T, c c15Case) CaseOut {
@@ -186,6 +187,12 @@ func runC15Case(t *testing.T, c c15Case) CaseOut {
 			req["startpos"] = 0
 		default:
 			req["unitid"] = unit.ID()
+		}
+		switch c.Sign {
+		case "true", "false":
+			req["signwork"] = c.Sign
+		case "bool-true":
+			req["signwork"] = true
 		}
 		line, _ := json.Marshal(req)
 		s, err := e.open()
@@ -267,7 +274,7 @@ func runC15Case(t *testing.T, c c15Case) CaseOut {
 		}
 		out.Outcome = fmt.Sprintf("%s/%s want=%s effect=%v", c.Cmd, c.Type, want, effect)
 		if want == "refused" && effect {
-			out.violate(fmt.Sprintf("sig:effect-without-valid-token:%s:%s:%s", c.Cmd, c.Type, c.Token), "%+v: the command must be refused but took effect (reply %q)", c, trunc(reply, 100))
+			out.violate(fmt.Sprintf("sig:effect-without-valid-token:%s:%s:%s:signwork=%s", c.Cmd, c.Type, c.Token, c.Sign), "%+v: the command must be refused but took effect (reply %q)", c, trunc(reply, 100))
 		}
 		if want == "refused" && !strings.HasPrefix(reply, "ERROR") {
 			out.violate(fmt.Sprintf("sig:not-refused:%s:%s:%s", c.Cmd, c.Type, c.Token), "%+v: expected an ERROR reply, got %q (%v)", c, trunc(reply, 100), rerr)
@@ -287,18 +294,27 @@ func runC15(w *W) {
 					continue // results of a never-started remote unit do not terminate; covered by C05
 				}
 				for _, tok := range c15Tokens {
-					c := c15Case{cmd, conn, typ, tok}
-					w.Case(fmt.Sprintf("%+v", c), func() CaseOut {
-						o := runC15Case(w.T, c)
-						if tok == "alg-none" && conn == "tcp" {
-							o.Sample = map[string]any{"case": c, "outcome": o.Outcome}
+					for _, sign := range []string{"", "true", "false"} {
+						if sign != "" && cmd != "submit" {
+							continue
 						}
-						return o
-					})
+						c := c15Case{cmd, conn, typ, tok, sign}
+						c15One(w, c)
+					}
 				}
 			}
 		}
 	}
+}
+
+func c15One(w *W, c c15Case) {
+	w.Case(fmt.Sprintf("%+v", c), func() CaseOut {
+		o := runC15Case(w.T, c)
+		if c.Token == "alg-none" && c.Conn == "tcp" {
+			o.Sample = map[string]any{"case": c, "outcome": o.Outcome}
+		}
+		return o
+	})
 }
 
 func init() {
@@ -307,7 +323,7 @@ func init() {
 		Level:     "exploration",
 		Technique: "exhaustive enumeration of command x connection kind x work type x token through the real RunControlSession/Workceptor with recording in-process work units; decision compared with the statement",
 		Rule: "5 commands x {unix, tcp, mesh address} x {verifying, non-verifying, remote with/without signing, unknown} x 15 tokens (absent, empty, garbage, valid RS512, valid RS256, expired, other audience, several audiences incl. this node, other key, alg none, HS256 keyed with the public key PEM, truncated, payload swapped under a valid signature, no exp, not-before in the future). " +
-			"Every combination is a distinct case; all are non-trivial. Effect = unit created / Cancel or Release reached the unit / unit removed / result stream started.",
+			"submit additionally with the signwork field absent, \"true\" or \"false\" (it asks for relayed work to be signed and must not influence whether the submission itself is verified). Every combination is a distinct case; all are non-trivial. Effect = unit created / Cancel or Release reached the unit / unit removed / result stream started.",
 		Assumptions: []string{"a token without exp is left open by the statement (either outcome accepted)", "a submit names the verifying type by its local registration"},
 		Run:         runC15,
 		CaseTimeout: 60 * time.Second,
